@@ -530,7 +530,7 @@ def unquote(
 
 def suppress_kinds(
     flat_ast: str,
-    sub: Callable = regex.compile(r"(?m)^.+/kind=.*\n").sub,
+    sub: Callable = regex.compile(r"(?m)^[^=\n]+/kind=.*\n").sub,
 ) -> str:
     """Suppress all leaves containing `/kind=`. They are useless in the following.
 
